@@ -25,6 +25,10 @@ CHECKS = {
    technique="ServeImpl.tla with fault actions (read error/EOF, write failure after blocking, context cancel) checked by TLC for safety and liveness (shutdown ~> return, Stop once); fault schedules from TLC replayed on the real ServeConn; traces validated against ServeContract.tla; bounded-return watchdog with goroutine dump",
    text="TLC checks, for every point at which one fault of any kind can strike relative to <=3-4 in-flight requests, that the serve loop returns (liveness under weak fairness), that every in-flight handler context is then cancelled and that Stop runs exactly once after return. Schedules with faults (simulation + the liveness counterexample of the as-is model) are replayed on the real code: ServeConn must return within 5 s, else a goroutine dump of the parked serve loop is the evidence; recorded traces are validated by TLC (stop exactly once, in-flight contexts cancelled at return).",
    note="As C06. Mid-frame faults are injected as a truncated frame followed by EOF. The fid-release clause after Stop is checked by the fid engine (every history ends with Stop) and by the stop-race scenarios."),
+ "C14": dict(engine="fid", cat="model_checking", ref="5 C14",
+   technique="TLA+ model of the session's lock protocol (FidConc.tla) checked by TLC for mutual exclusion, deadlock freedom, no-lock-left and linearizability; concurrent histories recorded from the real session validated by TLC (FidLin.tla: linearization-point search against the sequential fid table)",
+   text="TLC explores every interleaving of 2-3 concurrent session operations at the granularity of table lookup / Lock / FileSys enter / exit / bind / rollback and checks per-entry mutual exclusion, that some process can always move, that no returned process holds a lock and that the results are linearizable. On the real code seeded concurrent workloads (2-4 goroutines, yields inside FileSys calls) record invoke/return and FileSys enter/exit events; TLC validates each history (mutual exclusion invariant, linearizability by searching linearization points). Calls that never return / fids left locked are detected by watchdog + goroutine dump and by probing every fid at quiescence; the sequential LTS replay of the fid engine contributes its hang class; race detector in the thorough tier.",
+   note="Trusted: FidLin.tla's sequential semantics, event stamping under one mutex, Go race detector. Interleavings on the real code are sampled, not enumerated (no lock-level hooks); the lock-level enumeration is on the model only."),
 }
 
 NA_REASON = "check not built yet in this round; planned per DESIGN.md section 5 (specification exists or is planned, no verdict is claimed)"
